@@ -294,3 +294,53 @@ def foreign_scratch_rule(chk, P, rule, only=None, min_instances=300):
                (f.name, k, un, ', '.join(others[:4])))
     if n < min_instances:
         raise AnalysisBroken('%s: only %d (generator, shared variable) pairs found' % (rule, n))
+
+
+def lost_updates(f, nonlocal_only=True):
+    """Read-modify-write statements (x++, x--, x op= e) whose result is
+    overwritten by a plain assignment on every path before anything can
+    observe it: the adjustment is lost.  Yields (line, lvalue).  Calls and the
+    function exit count as observers of non-local storage."""
+    def mentions_l(e, L):
+        return any(strip(m) == L for m in walk(e) if isinstance(m, (list, tuple)))
+    succ = f.succs()
+    for b, i, ln, n in f.nodes():
+        if not (is_incdec(n) or (is_assign(n) and n[1] != '=')):
+            continue
+        L = strip(n[2])
+        if L[0] not in ('l', 'p', 'm', 'g', 'gs', 'ls'):
+            continue
+        local = L[0] in ('l', 'p')
+        if local and nonlocal_only:
+            continue
+        if strip(f.blocks[b]['elems'][i][1]) != strip(n):
+            continue            # value of the expression is used
+        base = [strip(m) for m in walk(L) if m[0] in ('l', 'p', 'g', 'gs', 'ls')]
+        seen = set()
+        work = [(b, i + 1)]
+        dead, killed = True, False
+        while work and dead:
+            bb, ii = work.pop()
+            els = f.blocks[bb]['elems']
+            stop = False
+            for j in range(ii, len(els)):
+                ex = els[j][1]
+                s = strip(ex)
+                if is_assign(s) and s[1] == '=' and strip(s[2]) == L and not mentions_l(s[3], L):
+                    stop = killed = True
+                    break
+                if mentions_l(ex, L) or (not local and any(m[0] == 'call' for m in walk_own(ex))) or \
+                        any((is_assign(m) or is_incdec(m)) and strip(m[2]) in base and strip(m[2]) != L for m in walk_own(ex)):
+                    dead = False
+                    break
+            if not dead or stop:
+                continue
+            nx = succ.get(bb, ())
+            if not nx and not local:
+                dead = False
+            for t, l in nx:
+                if t not in seen:
+                    seen.add(t)
+                    work.append((t, 0))
+        if dead and killed:
+            yield ln, L
